@@ -416,6 +416,46 @@ pub fn check_case(case: &Case, ctx: &mut Ctx) -> Verdict {
                 return fail("roff/visible-item-missing", format!("level {:?}: {:?} is not mentioned", path, w), &roff);
             }
         }
+        // the section of this level lists this level's own help and version flags
+        {
+            let title = std::iter::once("app".to_owned())
+                .chain(path.iter().cloned())
+                .collect::<Vec<_>>()
+                .join(" ");
+            let is_title = |ln: &str, t: &str| ln.starts_with('#') && ln.trim_start_matches('#').trim() == t;
+            let section: String = if n_levels > 1 {
+                let mut inside = false;
+                let mut out = String::new();
+                for ln in md.lines() {
+                    if ln.starts_with('#') && ln.trim_start_matches('#').trim().starts_with("app") {
+                        inside = is_title(ln, &title);
+                        continue;
+                    }
+                    if inside {
+                        out.push_str(ln);
+                        out.push('\n');
+                    }
+                }
+                out
+            } else {
+                md.clone()
+            };
+            if !section.is_empty() {
+                let mut flags: Vec<String> = vec![format!("--{}", l.info.help_longs()[0])];
+                if l.info.version.is_some() {
+                    flags.push(format!("--{}", l.info.version_longs()[0]));
+                }
+                for f in flags {
+                    if !section.contains(&f) {
+                        return fail(
+                            "markdown/level-section-misses-its-help-or-version-flag",
+                            format!("section {:?} does not mention {}", title, f),
+                            &md,
+                        );
+                    }
+                }
+            }
+        }
         // the level has a section of its own
         if n_levels > 1 {
             let title = std::iter::once("app".to_owned())
